@@ -53,6 +53,7 @@ type BlockSpec struct {
 
 type Step struct {
 	Kind     string     `json:"kind"` // block | revert | restart
+	Note     string     `json:"note,omitempty"` // generator's remark: which kind of block it meant to build (not interpreted)
 	Block    *BlockSpec `json:"block,omitempty"`
 	Expected bool       `json:"expected,omitempty"` // revert: pass ExpectedStateRoot
 	D        int        `json:"d,omitempty"`        // restart: application is D blocks ahead of the engine
@@ -104,6 +105,17 @@ type simStats struct {
 	richFail, delPreexisting, followedEvents, followedTomb                int
 	failWithSnap, okAfterRestore                                          int
 	recoveries2, retainedAfterRestore, storeRestores, abandoned, expectedRoots int
+	// reorganisation bookkeeping (removal = Revert or one recovery step of Init)
+	neutralCommitted        int    // committed blocks whose resulting state equals the state before the block
+	removedNeutral          int    // removals of such a block
+	revertNeutralOverStale  int    // Revert of a state-neutral block at a height that previously held a state-changing block which was abandoned
+	recoverNeutralOverStale int    // the same through the Init recovery
+	removedAtMultiHeight    int    // removals at a height that has seen >= 2 different committed blocks
+	removedAtMulti3         int    // ... >= 3
+	reorgs                  int    // removals followed by a new block
+	reorgDepth              [5]int // reorgs by depth (index 4 = 4 or more)
+	recoveryDepthMax        int
+	descents                int    // runs of >= 2 consecutive removals through heights that saw >= 2 blocks each
 }
 
 type sim struct {
@@ -118,13 +130,17 @@ type sim struct {
 	initWorkaround    bool // S14 listed as known: recovery is run with a live execution context
 	nilConsensus      bool // send ExecuteTransaction without Consensus (as the in-process callers do)
 	nonce             uint64
+	seenAt            map[uint32]int  // number of blocks committed at a height so far
+	staleChanging     map[uint32]bool // heights that held a state-changing block which was later removed
+	pendingRemoved    int             // consecutive removals since the last committed block
+	multiRun          int             // consecutive removals at heights that saw >= 2 blocks
 	chainID           []byte
 	genesisBlock      *blockchain.Block
 	stats             simStats
 }
 
 func newSim() *sim {
-	s := &sim{rec: &recorder{}, tomb: map[string]bool{}, chainID: []byte{4, 0, 0, 0}}
+	s := &sim{rec: &recorder{}, tomb: map[string]bool{}, chainID: []byte{4, 0, 0, 0}, seenAt: map[uint32]int{}, staleChanging: map[uint32]bool{}}
 	var err error
 	if s.stateDB, err = db.NewInMemoryDB(); err != nil {
 		panic(err)
@@ -156,6 +172,53 @@ func (s *sim) boot() {
 }
 
 func (s *sim) tip() *tipRec { return &s.chain[len(s.chain)-1] }
+
+// noteCommit / noteRemoved keep the reorganisation statistics (labels only; nothing is decided on them).
+func (s *sim) noteCommit(height uint32, neutral bool) {
+	s.seenAt[height]++
+	if neutral {
+		s.stats.neutralCommitted++
+	}
+	if s.pendingRemoved > 0 {
+		s.stats.reorgs++
+		d := s.pendingRemoved
+		if d > 4 {
+			d = 4
+		}
+		s.stats.reorgDepth[d]++
+	}
+	s.pendingRemoved = 0
+	s.multiRun = 0
+}
+
+func (s *sim) noteRemoved(cur, prev *tipRec, viaInit bool) {
+	neutral := cur.state.equal(prev.state)
+	if neutral {
+		s.stats.removedNeutral++
+		if s.staleChanging[cur.height] {
+			if viaInit {
+				s.stats.recoverNeutralOverStale++
+			} else {
+				s.stats.revertNeutralOverStale++
+			}
+		}
+	} else {
+		s.staleChanging[cur.height] = true
+	}
+	if s.seenAt[cur.height] >= 2 {
+		s.stats.removedAtMultiHeight++
+		s.multiRun++
+		if s.multiRun == 2 {
+			s.stats.descents++
+		}
+	} else {
+		s.multiRun = 0
+	}
+	if s.seenAt[cur.height] >= 3 {
+		s.stats.removedAtMulti3++
+	}
+	s.pendingRemoved++
+}
 
 func mkHeader(height uint32) *blockchain.BlockHeader {
 	return &blockchain.BlockHeader{
@@ -452,6 +515,7 @@ func (s *sim) block(where string, b *BlockSpec) *violation {
 	tip := *s.tip()
 	height := tip.height + 1
 	header := mkHeader(height)
+	header.Timestamp += uint32(s.seenAt[height] % 10) // another block at a height already used is a different block (different id)
 	assets := assetsOf([2]any{&b.Hooks[0], &b.Hooks[1]})
 	s.stats.blocks++
 	ires, err := s.abi.InitStateMachine(&labi.InitStateMachineRequest{Header: header})
@@ -575,6 +639,7 @@ func (s *sim) block(where string, b *BlockSpec) *violation {
 	}
 	s.tomb = newTomb
 	s.stats.committed++
+	s.noteCommit(height, tip.state.equal(m.st))
 	s.chain = append(s.chain, tipRec{height: height, root: cres.StateRoot, state: m.st, header: header})
 	if _, err := s.abi.Clear(&labi.ClearRequest{}); err != nil {
 		return viol("", "%s: Clear: %v", where, err)
@@ -630,6 +695,7 @@ func (s *sim) revert(where string, expected bool) *violation {
 		return v
 	}
 	s.tomb = newTomb
+	s.noteRemoved(&cur, &prev, false)
 	s.chain = s.chain[:len(s.chain)-1]
 	s.tip().root = got
 	s.stats.reverts++
@@ -703,6 +769,12 @@ func (s *sim) init(where string, d int) *violation {
 		return v
 	}
 	s.tomb = tomb
+	for i := len(s.chain) - 1; i > len(s.chain)-1-d; i-- {
+		s.noteRemoved(&s.chain[i], &s.chain[i-1], true)
+	}
+	if d > s.stats.recoveryDepthMax {
+		s.stats.recoveryDepthMax = d
+	}
 	s.chain = s.chain[:len(s.chain)-d]
 	s.tip().root = root
 	if d > 0 {
